@@ -8,7 +8,13 @@ Correspondence
   B. fdd.EFDD_mpe (PerPlot: bell, normalised correlation, extremum indices, delta, lam; Fn, Xi) against the Gallina model
      efdd_time evaluated at Qc on the correlation the harness computes itself (np.fft.ifft of the closed-form bell),
      through the transcendental boundary (log arguments, xi^2, fn^2).
-  C. EFDD / FSDD classes with an injected exact Sy: result.{Fn,Xi,Phi,forPlot} = what fdd.EFDD_mpe returns for that Sy.
+  C. EFDD / FSDD classes with an injected exact Sy: result.{Fn,Xi,Phi,forPlot} = what fdd.EFDD_mpe returns for that Sy; the
+     documented positional call forms mpe(sel_freq, DF1, DF2, cm, MAClim, sppk, npmax) give the keyword call's result.
+  D. WHICH SVD (theorems C07_bell_svd_independent, C07_bell_rephase_invariant, C07_shape_mac_one): numpy.linalg.svd is made to
+     answer with ANOTHER triple meeting its contract (unit-modulus factors on the columns of U and V; a unitary turn inside the
+     degenerate floor subspace of a rank-one-plus-floor line) - fdd.SDOF_bellandMS and fdd.EFDD_mpe must return the same bell /
+     Fn / Xi / Phi (1e-9) and stay inside the envelope; the Gallina model evaluated on the rephased stored vectors
+     (sdof_bell_zt, exact unit-modulus rationals) must print the very same string.
 Oracle (property text, NumPy only): over the stated envelope MAC >= 0.999, |fn err| <= 2.5 %, |xi err| <= 15 %, and
   Sy -> c*Sy leaves Fn, Xi unchanged to 1e-9, both methods.
 """
@@ -23,7 +29,7 @@ import numpy as np
 from common import VERIF, parse_q, parse_row, qc
 from pyoma2.functions import fdd
 
-HEADER = "From PyOMA.Base Require Import Cplx.\nFrom PyOMA.Model Require Import M_efdd."
+HEADER = "From PyOMA.Base Require Import Cplx.\nFrom PyOMA.Model Require Import M_efdd M_efdd_svd."
 TOL = 1e-9
 
 
@@ -119,6 +125,7 @@ def special_shape_points(thorough):
             out.append(dict(kind="envelope-shape", fs=fs, nxseg=nxseg, fn=fn, xi=xi, phi=list(phi), eps_rel=(1e-10, 1e-8, 1e-12)[(i + j) % 3],
                             gain=(1.0, 1e-5, 1e4)[(i + j) % 3], DF2=bw * (4.0, 8.0)[(i + j) % 2], DF1=bw, sel=fn + bw * (0.2, -0.3, 0.0)[(i + j) % 3],
                             c=(7.0, 2.0 ** -30, 1e6)[(i + j) % 3], scale_test=bool(thorough or i % 3 == 0), layout=LAYOUTS[(i + j) % 3],
+                            alt_svd=(i + j if (i + j) % 3 == 1 else None),
                             readonly=(None, "flag", None, "broadcast", "flag", "memmap")[(i + 2 * j) % 6]))
     return out
 
@@ -149,6 +156,7 @@ def corner_points(thorough):
                                 eps_rel=(1e-10, 1e-8, 1e-12)[(i + j + e) % 3], gain=(1.0, 1e-6, 1e5)[(i + e) % 3],
                                 DF2=bw * (4.0, 10.0, 6.0)[(i + j + e) % 3], DF1=bw, sel=fn + bw * (0.3, -0.4, 0.1)[(i + e) % 3],
                                 c=(1000.0, 2.0 ** -20, 3.0)[(j + e) % 3], scale_test=bool(thorough or (i + j + e) % 4 == 0),
+                                alt_svd=(i + j + e if (i + j + e) % 4 == 1 else None),
                                 layout=LAYOUTS[(i + 2 * j + e) % 3], readonly=RO_FORMS[(i + j + 2 * e) % 3]))
     return out
 
@@ -211,6 +219,89 @@ class Frozen:
                 v[...] = self.snap[k][0]
 
 
+# ----------------------------------------------------------------------------------------------------------------------
+# D. which SVD?  another triple meeting numpy.linalg.svd's contract
+# ----------------------------------------------------------------------------------------------------------------------
+UNIT_Q = ((3, 4, 5), (5, -12, 13), (-8, 15, 17), (0, 1, 1), (-1, 0, 1), (7, 24, 25), (-20, -21, 29), (12, -35, 37))  # (a + ib)/c, modulus 1 exactly
+
+
+def unit_phases(k, n):
+    """n exact unit-modulus Gaussian rationals (as (a, b, c)), a different selection for every k."""
+    return [UNIT_Q[(k + 3 * c) % len(UNIT_Q)] for c in range(n)]
+
+
+class AltSVD:
+    """numpy.linalg.svd answering with ANOTHER triple (U', S, V'^H) meeting its contract A = U' diag(S) V'^H, U'^H U' = I,
+    V'^H V' = I, S unchanged: column c of U and of V multiplied by the unit-modulus number t_c (always possible) and - rotate -
+    the columns 1.. of a line whose values S[1:] coincide (the floor of a rank-one-plus-floor spectrum) turned among themselves
+    by a fixed unitary matrix.  Used as a context manager around ONE call of the implementation; .calls counts the square
+    matrices it has answered for (0 = the implementation does not go through numpy.linalg.svd: nothing is judged)."""
+
+    def __init__(self, phases, rotate=False):
+        self.t = np.array([complex(a, b) / c for a, b, c in phases])
+        self.rotate = rotate
+        self.calls = 0
+        self.Q = {}
+
+    def __enter__(self):
+        self.orig = np.linalg.svd
+        np.linalg.svd = self
+        return self
+
+    def __exit__(self, *exc):
+        np.linalg.svd = self.orig
+        return False
+
+    def _turn(self, m):
+        if m not in self.Q:
+            g = np.random.default_rng(1000 + m)
+            self.Q[m] = np.asarray(self.orig(g.standard_normal((m, m)) + 1j * g.standard_normal((m, m)))[0])  # unitary
+        return self.Q[m]
+
+    def __call__(self, a, *args, **kw):
+        out = self.orig(a, *args, **kw)
+        arr = np.asarray(a)
+        if arr.ndim != 2 or arr.shape[0] != arr.shape[1] or not isinstance(out, tuple) or len(out) != 3:
+            return out
+        U, S, Vh = out
+        n = arr.shape[0]
+        if np.shape(U) != (n, n) or np.shape(Vh) != (n, n):
+            return out
+        t = np.array([self.t[c % len(self.t)] for c in range(n)])
+        U2 = np.asarray(U, complex) * t[None, :]
+        Vh2 = t.conj()[:, None] * np.asarray(Vh, complex)
+        if self.rotate and n > 2 and S[1] - S[-1] <= 1e-13 * S[0]:
+            Q = self._turn(n - 1)
+            U2[:, 1:] = U2[:, 1:] @ Q
+            Vh2[1:, :] = Q.conj().T @ Vh2[1:, :]
+        if self.calls < 3:  # the alternative answer meets the contract (harness sanity)
+            assert np.allclose((U2 * S[None, :]) @ Vh2, arr, rtol=0, atol=1e-12 * max(S[0], 1e-300)), "AltSVD: A"
+            assert np.allclose(U2.conj().T @ U2, np.eye(n), atol=1e-12) and np.allclose(Vh2 @ Vh2.conj().T, np.eye(n), atol=1e-12), "AltSVD: unitary"
+        self.calls += 1
+        return type(out)(U2, S, Vh2) if hasattr(out, "_fields") else (U2, S, Vh2)
+
+
+def oracle_alt_svd(ctx, spec, case, Sy, f, method, ref):
+    """The estimates of ONE envelope point when numpy.linalg.svd answers with another contract-meeting triple: inside the
+    envelope (property text) and equal to the estimates obtained with LAPACK's own answer (ref = (Fn, Xi, Phi))."""
+    k = spec["alt_svd"]
+    case2 = dict(case, alt_svd=dict(phases=unit_phases(k, len(spec["phi"])), rotate=True))
+    ctx.count(case2, nontrivial=True)
+    ctx.hist("oracle alt svd", method)
+    with AltSVD(case2["alt_svd"]["phases"], rotate=True) as alt:
+        r2 = analyse(ctx, case2, Sy, f, spec, method)
+    if alt.calls == 0:
+        ctx.not_judged += 1
+        return
+    if r2 is None:
+        return
+    Fn, Xi, Phi = ref
+    if not (abs(r2[0] - Fn) <= TOL * abs(Fn) and abs(r2[1] - Xi) <= TOL * abs(Xi) and mac(r2[2][:, 0], Phi[:, 0]) >= 1 - 1e-9):
+        ctx.fail("correspondence", "%s: estimates depend on WHICH contract-meeting SVD numpy.linalg.svd returns (columns of U, V times unit-modulus "
+                 "numbers %r, floor subspace turned): Fn %r -> %r, Xi %r -> %r, MAC of the two shapes %.12f - theorem C07_bell_svd_independent says equal"
+                 % (method, case2["alt_svd"]["phases"], Fn, r2[0], Xi, r2[1], mac(r2[2][:, 0], Phi[:, 0])), case2, key="C07:%s:svd-choice" % method)
+
+
 def analyse(ctx, case, Sy, f, spec, method, judge=True):
     """One call of fdd.EFDD_mpe on (Sy, f) judged against the truth of spec (the property text).  None = failed call."""
     fs, fn, xi = spec["fs"], spec["fn"], spec["xi"]
@@ -263,6 +354,8 @@ def oracle_case(ctx, spec, methods=("EFDD", "FSDD")):
         ctx.hist("oracle read-only", str(spec.get("readonly")))
         ctx.hist("oracle log10 fs", int(np.floor(np.log10(fs))))
         r = analyse(ctx, case, Sy, f, spec, method)
+        if r is not None and spec.get("alt_svd") is not None:
+            oracle_alt_svd(ctx, spec, case, Sy, f, method, r)
         if r is None or not spec.get("scale_test", True):
             continue
         Fn, Xi, Phi = r
@@ -641,9 +734,40 @@ def run_bell(ctx, rng):
                              key="C07:bell:%s:closed-form" % method)
             exprs.append("showBell (sdof_bell_z %s %d %d %d %s %s %s %s %s %d %s)" % (
                 method, n, cm, Nf, qd(h), qd(case["sel"]), qd(case["DF"]), zlist(zc(phi)), qd(lim), lo, zlist(lines)))
-            meta.append((cs, got, lo, hi))
+            meta.append((cs, got, lo, hi, None))
+            if k % 7 == 0 and case["malformed"] is None and not isinstance(got, str):
+                # D. another contract-meeting SVD: the implementation under AltSVD, the model on the rephased stored vectors
+                ph = unit_phases(k, n)
+                cs2 = dict(cs, alt_svd=dict(phases=ph, rotate=not case["two"]))
+                ctx.count(cs2, nontrivial=hi > lo and cm > 0 and lim < 1)
+                ctx.hist("bell alt svd", (method, "two-mode" if case["two"] else "rank-one", "cm%d" % cm))
+                with AltSVD(ph, rotate=not case["two"]) as alt:
+                    try:
+                        got2 = np.asarray(fdd.SDOF_bellandMS(Sy_in, dt, case["sel"], phi_in, method=method, cm=cm, MAClim=lim, DF=case["DF"])[0], complex)
+                    except Exception as e:  # noqa: BLE001
+                        got2 = type(e).__name__
+                if alt.calls == 0:
+                    ctx.not_judged += 1
+                elif isinstance(got2, str) or got2.shape != got.shape or not np.allclose(got2, got, rtol=0, atol=TOL * max(np.abs(got).max(), 1e-300)):
+                    ctx.fail("correspondence", "SDOF_bellandMS(%s) depends on WHICH contract-meeting SVD numpy.linalg.svd returns (columns of U, V times "
+                             "unit-modulus numbers%s): %s - theorem C07_bell_svd_independent says the bell is the same" % (
+                                 method, "" if case["two"] else ", floor subspace turned",
+                                 got2 if isinstance(got2, str) else "max difference %.3g of %.3g" % (np.abs(got2 - got).max(), np.abs(got).max())),
+                             cs2, key="C07:bell:svd-choice-%s" % method)
+                # S_vec[c] = conj(U[:, c] t_c) = conj(U[:, c]) conj(t_c): the model multiplies the stored vector c by conj(t_c)
+                tsz = "[" + "; ".join("(q %s %d, q %s %d)" % ("(%d)" % a_ if a_ < 0 else str(a_), c_, "(%d)" % -b_ if -b_ < 0 else str(-b_), c_)
+                                      for a_, b_, c_ in ph[:cm]) + "]"
+                exprs.append("showBell (sdof_bell_lt %s %d %d %d %s %s %s (dec_c %s) %s %d %s (dec_lines %d %d %s))" % (
+                    method, n, cm, Nf, qd(h), qd(case["sel"]), qd(case["DF"]), zlist(zc(phi)), qd(lim), lo, tsz, n, cm, zlist(lines)))
+                meta.append((cs2, got, lo, hi, len(exprs) - 2))
     res = ctx.coq_eval(HEADER, exprs, shard=4)
-    for (cs, got, lo, hi), s in zip(meta, res):
+    for (cs, got, lo, hi, base), s in zip(meta, res):
+        if base is not None:  # theorem C07_bell_rephase_invariant, executed: the very same string
+            if s != res[base]:
+                ctx.fail("correspondence", "the model bell evaluated on the stored vectors times unit-modulus numbers differs from the model bell on the "
+                         "vectors themselves (C07_bell_rephase_invariant says equal): %s... vs %s..." % (s[:60], res[base][:60]), cs,
+                         key="C07:bell:rephase-model")
+            continue
         if s.startswith("E:"):
             if not isinstance(got, str):
                 ctx.fail("correspondence", "SDOF_bellandMS returns where the model has %s" % s, cs, key="C07:bell:corr-raise")
@@ -807,12 +931,57 @@ def run_decay(ctx, rng):
 # ----------------------------------------------------------------------------------------------------------------------
 # C. classes
 # ----------------------------------------------------------------------------------------------------------------------
+MPE_ORDER = ("DF1", "DF2", "cm", "MAClim", "sppk", "npmax")  # EFDD.mpe(sel_freq, DF1, DF2, cm, MAClim, sppk, npmax): the documented order
+MPE_DEFAULTS = dict(DF1=0.1, DF2=1.0, cm=1, MAClim=0.85, sppk=3, npmax=20)
+
+
+def positional_forms(ctx, case, ss, alg, spec, phi, kwref):
+    """The documented positional call forms of the class-level mpe - setup.mpe(name, sel_freq, DF1, DF2, cm, MAClim, sppk, npmax)
+    (all seven), alg.mpe(sel_freq, DF1, DF2) (band widths only) - on the object that has just answered the keyword call:
+    same Fn / Xi / Phi as the keyword call (kwref, 1e-12), inside the property's envelope, and run_params holds what was passed."""
+    full = dict(MPE_DEFAULTS, DF1=spec["DF1"], DF2=spec["DF2"])
+    forms = (("setup.mpe(name, sel_freq, DF1, DF2, cm, MAClim, sppk, npmax)", lambda: ss.mpe("a", [spec["sel"]], *[full[k] for k in MPE_ORDER])),
+             ("alg.mpe(sel_freq, DF1, DF2)", lambda: alg.mpe([spec["sel"]], spec["DF1"], spec["DF2"])))
+    for name, call in forms:
+        cs = dict(case, kind="class-positional", call_form=name)
+        ctx.count(cs, nontrivial=True)
+        ctx.hist("class call form", name)
+        try:
+            call()
+            Fn, Xi, Phi = np.array(alg.result.Fn, float), np.array(alg.result.Xi, float), np.array(alg.result.Phi)
+            rp = {k: getattr(alg.run_params, k, None) for k in MPE_ORDER}
+        except Exception as e:  # noqa: BLE001
+            ctx.fail("oracle", "%s.mpe called positionally as %s raised %s: %s - the keyword call with the same values succeeds" % (
+                case["cls"], name, type(e).__name__, str(e)[:80]), cs, key="C07:class:positional-raises")
+            continue
+        m = mac(Phi[:, 0], phi) if np.ndim(Phi) == 2 and Phi.shape[0] == len(phi) else float("nan")
+        efn, exi = abs(Fn[0] - spec["fn"]) / spec["fn"], abs(Xi[0] - spec["xi"]) / spec["xi"]
+        if not (m >= 0.999 and efn <= 0.025 and exi <= 0.15):
+            ctx.fail("oracle", "%s.mpe called positionally as %s with DF1 = %g, DF2 = %g: fn %.6g (true %.6g, error %.2f %%), xi %.5g (true %.5g, error "
+                     "%.1f %%), MAC %.5f - outside 2.5 %% / 15 %% / 0.999 (the keyword call gives fn %.6g, xi %.5g)" % (
+                         case["cls"], name, spec["DF1"], spec["DF2"], Fn[0], spec["fn"], 100 * efn, Xi[0], spec["xi"], 100 * exi, m, kwref[0][0], kwref[1][0]),
+                     cs, key="C07:class:positional-envelope")
+        if not (Fn.shape == kwref[0].shape and np.allclose(Fn, kwref[0], rtol=1e-12, atol=0) and np.allclose(Xi, kwref[1], rtol=1e-12, atol=0)
+                and np.shape(Phi) == np.shape(kwref[2]) and np.allclose(Phi, kwref[2], rtol=1e-12, atol=1e-15)):
+            ctx.fail("oracle", "%s.mpe called positionally as %s gives fn %.12g, xi %.12g; the same values passed by keyword give fn %.12g, xi %.12g "
+                     "(true %.6g, %.4g; DF1 = %g, DF2 = %g)" % (case["cls"], name, Fn[0], Xi[0], kwref[0][0], kwref[1][0], spec["fn"], spec["xi"],
+                                                                 spec["DF1"], spec["DF2"]), cs, key="C07:class:positional-differs")
+        want = full if name.startswith("setup") else dict(DF1=spec["DF1"], DF2=spec["DF2"])
+        bad = {k: rp[k] for k in want if rp[k] is not None and rp[k] != want[k]}
+        if bad:
+            ctx.fail("oracle", "%s.mpe called positionally as %s: run_params records %r, passed %r" % (case["cls"], name, bad, {k: want[k] for k in bad}), cs,
+                     key="C07:class:positional-run-params")
+
+
 def run_classes(ctx, rng):
     from pyoma2.algorithms import EFDD, FSDD
     from pyoma2.setup import SingleSetup
 
     sp_all = special_shape_points(False)
     specs = [sp_all[i] for i in ((0, 2, 4) if ctx.quick() else range(len(sp_all)))]
+    # band widths for which the library default DF2 = 1.0 Hz is far too narrow (1.25 bandwidths) / far too wide (the whole axis)
+    specs += [dict(kind="envelope", fs=100.0, nxseg=2048, fn=20.0, xi=0.02, phi=[1.0, -0.5, 0.75, 0.25], eps_rel=1e-9, gain=1.0, DF2=4.0, DF1=0.15, sel=20.05),
+              dict(kind="envelope", fs=1.0, nxseg=2048, fn=0.11, xi=0.03, phi=[0.5, 1.0, -0.25], eps_rel=1e-7, gain=1e2, DF2=0.03, DF1=0.004, sel=0.1105)]
     for k in range(ctx.n(3, 16)):
         spec = gen_envelope(rng, big=False)
         spec["nxseg"] = min(spec["nxseg"], 2600)
@@ -856,6 +1025,7 @@ def run_classes(ctx, rng):
                         and np.allclose(r.forPlot[0][2], PP[0][2], rtol=TOL, atol=0))
                 Fnc, Xic, m = float(r.Fn[0]), float(r.Xi[0]), mac(r.Phi[:, 0], phi)
                 bell = np.asarray(r.forPlot[0][2])
+                kwref = (np.array(r.Fn, float), np.array(r.Xi, float), np.array(r.Phi))
             except Exception as e:  # noqa: BLE001
                 ctx.fail("oracle", "%s.mpe raised %s: %s - inside the property's envelope%s" % (cls.__name__, type(e).__name__, str(e)[:80], ro_note(case)), case,
                          key="C07:class:raises")
@@ -872,6 +1042,8 @@ def run_classes(ctx, rng):
             if not (m >= 0.999 and abs(Fnc - spec["fn"]) <= 0.025 * spec["fn"] and abs(Xic - spec["xi"]) <= 0.15 * spec["xi"]):
                 ctx.fail("oracle", "%s.mpe: Fn %.6g (true %.6g), Xi %.5g (true %.5g), MAC %.5f outside the envelope" % (
                     cls.__name__, Fnc, spec["fn"], Xic, spec["xi"], m), case, key="C07:class:envelope-%s" % method)
+            # the documented positional call forms on the same object
+            positional_forms(ctx, case, ss, alg, spec, phi, kwref)
             # history on the same objects: the stored spectral matrix is refilled in place with another mode, mpe again
             fn2 = spec["fn"] * 1.12 if spec["fn"] * 1.12 <= 0.25 * fs else spec["fn"] / 1.12
             xi2 = 0.07 - spec["xi"]
@@ -945,7 +1117,11 @@ def oracle_class_sequence(ctx, seq):
                 ctx.count(case, nontrivial=i > 0)
                 ctx.hist("oracle class sequence", "%s step %d %s" % (cls.__name__, i, "defaults" if not kw else "explicit"))
                 try:
-                    ss.mpe("a", sel_freq=[spec["sel"]], **dict(always, **kw))
+                    if si % 2 == 1 and set(always) == {"DF1", "DF2"} and not ({"DF1", "DF2"} & set(kw)):
+                        case["call_form"] = "setup.mpe(name, sel_freq, DF1, DF2, **others)"  # the band widths positionally, in the documented order
+                        ss.mpe("a", [spec["sel"]], always["DF1"], always["DF2"], **kw)
+                    else:
+                        ss.mpe("a", sel_freq=[spec["sel"]], **dict(always, **kw))
                     Fn, Xi, Phi = np.array(alg.result.Fn, float), np.array(alg.result.Xi, float), np.array(alg.result.Phi)
                 except Exception as e:  # noqa: BLE001
                     if not kw:
@@ -993,9 +1169,14 @@ def run(ctx):
                          "x {EFDD, FSDD}, inputs bit-equal after every call; histories on one ndarray refilled in place; fs sweeps at fixed fn/fs, xi; "
                          "bell: small rank-one / two-mode Hermitian spectra x method x cm x MAClim (+ malformed bands); decay: small analytic "
                          "spectra x sppk x npmax x per/cor (+ too few extrema, all-zero bell); non-trivial = non-empty band with an active "
-                         "bell / a fit that is carried out; distinct by hash of the case")
+                         "bell / a fit that is carried out; distinct by hash of the case; which-SVD: a share of the envelope points and of the bell "
+                         "cases is repeated with numpy.linalg.svd answering with another contract-meeting triple (unit-modulus column factors, floor "
+                         "subspace turned) and the model is evaluated on the rephased stored vectors; class-level mpe in keyword and in the documented "
+                         "positional call forms with band widths for which the default DF2 = 1.0 Hz is far too narrow / too wide")
     ctx.assumptions += [
         "oracle contract: numpy.linalg.svd returns U, S, V^H with A = U diag(S) V^H, U^H U = I, V^H V = I (Section hypothesis svd_ok of C07_efdd_bell_homogeneous)",
+        "oracle contract: numpy.linalg.svd returns S non-negative with S[0] the largest (hypothesis sv_first_max of C07_first_singular_pair_unique / "
+        "C07_bell_svd_independent); WHICH triple meeting the contract it returns is no longer assumed: proved irrelevant under the gap S[0] > S[1], one mode",
         "oracle contract: numpy.fft.ifft is linear (hypothesis ifft_homog of C07_efdd_pipeline_scale_invariant); its values enter the executed model as witness inputs",
         "oracle contract: scipy.optimize.curve_fit(m*x) returns the least-squares slope sum(k d_k)/sum(k^2) (checked at 1e-7 on every decay case)",
         "numpy.log / sqrt: the model computes their arguments (ratios), xi^2 and fn^2; the harness applies numpy.log to the model's ratios",
@@ -1044,7 +1225,10 @@ def run(ctx):
         oracle_case(ctx, spec)
     # ---- oracle sweep over the envelope
     for k in range(ctx.n(10, 200)):
-        oracle_case(ctx, gen_envelope(rng, big=not ctx.quick() or k % 7 == 0))
+        sp = gen_envelope(rng, big=not ctx.quick() or k % 7 == 0)
+        if k % 4 == 1:
+            sp["alt_svd"] = k  # ... also with another contract-meeting answer of numpy.linalg.svd
+        oracle_case(ctx, sp)
     # ---- call histories on one EFDD / FSDD object (both tiers)
     for q in fixed_class_sequences(not ctx.quick()):
         oracle_class_sequence(ctx, q)
